@@ -2786,9 +2786,12 @@ def respell(rng, text, cls):
             out.append(t2)
         elif kind == "str" and cls == "quotes":
             body = t[1:-1]
-            if "'" not in body and '"' not in body and "\\" not in body:
+            import re as _re2
+            if "\\" not in _re2.sub(r"\\[\"']", "", body):
+                # the string's content: backslash escapes only protect quote characters
+                content = _re2.sub(r"\\([\"'])", r"\1", body)
                 q = rng.choice(["'", '"'])
-                t2 = q + body + q
+                t2 = q + content.replace(q, "\\" + q) + q
                 changed |= (t2 != t)
                 out.append(t2)
             else:
@@ -2832,6 +2835,22 @@ def run_C14(ctx):
                     vs.append((cls, len(cases)))
                     cases.append({"rules": v, "data": data})
         groups.append((bi, vs))
+    # strings that contain quote characters, written with either kind of quote
+    QS = ["O'Neil", 'say "hi"', "it's", "'", '"', "a'b\"c", "x"]
+    for i in range(40 if ctx.thorough() else 12):
+        a, b, c = rng.choice(QS), rng.choice(QS), rng.choice(QS)
+        d = {"a": a, "b": b, "c": [c, "x"]}
+        lit = lambda s_: '"' + s_.replace('"', '\\"') + '"'
+        base = "rule q {\na == %s\nb in [%s, %s] <<it's a \"message\">>\nsome c[*] == %s\nb != %s\n}\n" % (lit(a), lit(b), lit("zz'z"), lit(c), lit(a + "'"))
+        bi = len(cases)
+        cases.append({"rules": base, "data": json.dumps(d)})
+        vs = []
+        for _ in range(3):
+            v = respell(rng, base, "quotes")
+            if v is not None and v != base:
+                vs.append(("quotes", len(cases)))
+                cases.append({"rules": v, "data": json.dumps(d)})
+        groups.append((bi, vs))
     # desugarings with a structured generator
     for i in range(n // 3):
         g = gen.SG(ctx.seed * 3100019 + i, core=True)
@@ -2870,6 +2889,11 @@ def run_C14(ctx):
         t = g.ch(["AWS::S3::Bucket", "AWS::EC2::Volume", "Custom::Thing"])
         sample = {"Type": t, "Properties": {"Size": 1, "Name": "a", "Enc": True, "Tags": [], "a": 1}}
         body = g.block_body(sample, [], 1)
+        if g.p(0.5):
+            # a body guarded by a condition (often false for every matched resource: the block is then skipped)
+            cond = g.ch(["Properties.Nope exists", "Properties.Size == 12345", "Type == 'zzz'", "Properties.Size exists",
+                         g.cnf(sample, [], 0, inline=True, maxlines=1)])
+            body = "when %s {\n%s\n}" % (cond, body)
         data = json.dumps(d)
         bi = len(cases)
         cases.append({"rules": "rule r {\n%s {\n%s\n}\n}\n" % (t, body), "data": data})
